@@ -93,7 +93,7 @@ def run(ctx):
     ctx.exhaustive = True
     ctx.extra["bounded_length"] = L
     # ---------------- random histories
-    nrand = 60 if ctx.quick else 1500
+    nrand = 250 if ctx.quick else 3000
     for h in range(nrand):
         cache = ctx.new_cache()
         nkeys = 8
